@@ -892,9 +892,11 @@ impl<S: VhostUserBackendReqHandler> BackendReqHandler<S> {
         // If Bit 8 is unset, the data must contain a file descriptor.
         let has_fd = (msg.value & 0x100u64) == 0;
 
+        // With the flag set no descriptor at all may be attached, otherwise exactly one.
+        let attached = files.as_ref().map_or(0, |files| files.len());
         let file = take_single_file(files);
 
-        if has_fd && file.is_none() || !has_fd && file.is_some() {
+        if has_fd && file.is_none() || !has_fd && attached != 0 {
             return Err(Error::InvalidMessage);
         }
 
